@@ -405,6 +405,31 @@ def rule_detune(ctx):
     ctx.require(n >= 3, 'C14.keys', f'only {n} parameter-collecting event functions found')
 
 
+def rule_detune_once(ctx):
+    ctx.rule('C14.keys', 'harmonic and detune are applied exactly once: _detuned_freq() is called only to store the result under the freq key '
+                         '(before the parameters are collected) or to convert it back to a midinote; whoever collects parameters reads the stored key')
+    m = ctx.repo.module('sc3.seq.event')
+    n = 0
+    for q, f in sorted(m.functions.items()):
+        for c in U.calls(f.node):
+            if not (U.is_self_attr(c.func) and c.func.attr == '_detuned_freq'):
+                continue
+            n += 1
+            par = getattr(c, '_parent', None)
+            stored = False
+            for p_ in U.parent_chain(c):
+                if isinstance(p_, ast.Assign):
+                    stored = any(isinstance(t, ast.Subscript) and norm(t.value) == 'self' and U.literal(t.slice) == 'freq' for t in p_.targets)
+                    break
+                if isinstance(p_, ast.stmt):
+                    break
+            back = isinstance(par, ast.Call) and norm(par.func) in ('bi.cpsmidi', 'cpsmidi')
+            ctx.ob('C14.keys', f'{f.fq}:_detuned_freq():stored-or-converted', stored or back,
+                   f'{q} uses self._detuned_freq() as a value: play() has already stored the detuned frequency under the freq key, so '
+                   f'harmonic and detune are applied a second time', c, m)
+    ctx.require(n >= 5, 'C14.keys', f'only {n} calls of _detuned_freq found')
+
+
 def rule_par(ctx):
     ctx.rule('C14.par', 'Ppar keeps a local clock: after every event it yields, `now` advances to exactly the time whose distance from '
                         '`now` was emitted as that event\'s delta, and that time was read from the queue in the same block')
@@ -480,7 +505,8 @@ def rule_par(ctx):
     ok = U.before(srcd, 'inevent = evt.event(stream.next(inevent))', "delta = inevent('delta')")
     # the last event is cut to the time that remains: `limit - elapsed` reaches the stored delta, and a constructor call of the delta's
     # own type (kept so that a Rest stays a Rest) is not applied when that type is int, which floors the remainder
-    stores = [x for x in walk_local(pd.node) if isinstance(x, ast.Assign) and isinstance(x.targets[0], ast.Subscript) and U.literal(x.targets[0].slice) == 'delta']
+    stores = [x for x in walk_local(pd.node) if isinstance(x, ast.Assign) and isinstance(x.targets[0], ast.Subscript) and U.literal(x.targets[0].slice) == 'delta'
+              and not any(isinstance(p_, ast.ExceptHandler) for p_ in U.parent_chain(x))]   # the padding rest after the end is decided below
     rem_ok = False
     why = 'no store to the delta key'
     if len(stores) == 1:
@@ -501,6 +527,20 @@ def rule_par(ctx):
     ctx.ob('C14.par', f'{pd.fq}:remaining-not-floored', rem_ok,
            f'the delta of the cut event must be limit - elapsed as a real number ({why}): type(delta)(remaining) with an int delta floors 0.5 to 0 and '
            f'Pdur(2.5, ...) lasts 2.0', pd.node, pd.module)
+    # the quant padding of Pdur is a difference of sums of deltas, i.e. already stretched (same reasoning as Ppar's bridging rests)
+    silc = [c for c in U.calls(pd.node) if norm(c.func) == 'evt.silent']
+    okp = bool(silc)
+    for c in silc:
+        a = getattr(c, '_parent', None)
+        if not (isinstance(a, ast.Assign) and len(a.targets) == 1 and isinstance(a.targets[0], ast.Name)):
+            okp = False
+            continue
+        blk = next(bb for bb in blocks(pd.node) if a in bb)
+        nxt = blk[blk.index(a) + 1] if blk.index(a) + 1 < len(blk) else None
+        okp = okp and nxt is not None and norm(nxt) == f"{a.targets[0].id}['delta'] = {norm(c.args[0])}"
+    ctx.ob('C14.par', f'{pd.fq}:padding-rest-not-restretched', okp,
+           'the rest that pads Pdur to its quant is evt.silent(gap, inevent) with the delta reset to the gap: the gap is measured in summed '
+           '(stretched) deltas, silent() would apply the in-event\'s stretch to it again', pd.node, pd.module)
     ctx.ob('C14.par', f'{pd.fq}:as-event', ok, 'Pdur converts the yielded value to an event before calling it for its delta (as Ppar does)', pd.node, pd.module)
 
 
@@ -513,6 +553,7 @@ def run(ctx):
     rule_accum(ctx)
     rule_pitch_chain(ctx)
     rule_detune(ctx)
+    rule_detune_once(ctx)
     rule_mono(ctx)
     rule_scale(ctx)
     rule_par(ctx)
@@ -524,6 +565,11 @@ def run(ctx):
 
 
 MUTANTS = [
+    dict(rule='C14.par', name='(fix reverted) Pdur quant padding rest stretched twice', file='sc3/seq/patterns/filterpatterns.py',
+         old="                    outevent = evt.silent(delta, inevent)\n                    outevent['delta'] = delta  # Already stretched.\n                    inevent = yield outevent",
+         new="                    inevent = yield evt.silent(delta, inevent)"),
+    dict(rule='C14.keys', name='fallback parameters apply harmonic and detune again (seed C14-h)', file='sc3/seq/event.py',
+         old="        return ['freq', self('freq'), 'amp', self('amp'),", new="        return ['freq', self._detuned_freq(), 'amp', self('amp'),"),
     dict(rule='C14.keys', name='mono set events send the frequency without harmonic and detune (seed C14-g)', file='sc3/seq/event.py',
          old="        self['freq'] = self._detuned_freq()\n        self['server'] = self('server')\n        msg = ['/n_set',", new="        self['server'] = self('server')\n        msg = ['/n_set',"),
     dict(rule='C14.par', name='Pdur floors the remaining time of an int delta (fix reverted)', file='sc3/seq/patterns/filterpatterns.py',
